@@ -46,6 +46,7 @@ def main():
     ap.add_argument('--out', default=os.path.join(VERIF, 'out'))
     ap.add_argument('--det', type=int, default=0)
     ap.add_argument('--no-minimise', action='store_true')
+    ap.add_argument('--extra-shard', default=None)
     args = ap.parse_args()
 
     proto = os.fdopen(os.dup(1), 'w')
@@ -77,7 +78,12 @@ def main():
            'seed': args.seed, 'world': args.world,
            'hashseed': os.environ.get('PYTHONHASHSEED')}
 
+    extras = mod.extra(args.tier) if hasattr(mod, 'extra') else []
+    EXTRA_BASE = 10 ** 6
+
     def gen(r):
+        if r >= EXTRA_BASE:
+            return extras[r - EXTRA_BASE]
         rng = SimRng(args.seed, 'world', args.world, 'run', r)
         return mod.gen(rng, args.tier)
 
@@ -103,6 +109,9 @@ def main():
 
     a, b = [int(x) for x in args.runs.split(':')]
     runs = list(range(a, b))
+    if args.extra_shard:
+        w_, n_ = [int(x) for x in args.extra_shard.split('/')]
+        runs += [EXTRA_BASE + i for i in range(len(extras)) if i % n_ == w_]
 
     counters = Counters()
     known_hits = {}
